@@ -94,7 +94,7 @@ func errClass(e string) string {
 		return ""
 	}
 	for _, k := range []string{"attribute not allowed", "element not allowed", "duplicate name", "invalid name", "multiple name attributes",
-		"directives not supported", "already found property value", "rdf:resource cannot be used", "parse base", "XML syntax error", "unexpected EOF", "render xml"} {
+		"directives not supported", "already found property value", "rdf:resource cannot be used", "parse base", "XML syntax error", "unexpected EOF", "render xml", "datatype requires a language tag"} {
 		if strings.Contains(e, k) {
 			return k
 		}
